@@ -142,7 +142,7 @@ func uniqueCallerRoot(p *core.Program, fn *ssa.Function, depth int) *ssa.Functio
 		return fn
 	}
 	var caller *ssa.Function
-	n, asValue := 0, false
+	n, asValue, several := 0, false, false
 	for _, g := range p.FnsInPkg(fn.Pkg.Pkg.Path()) {
 		core.Instrs(g, func(ins ssa.Instruction) {
 			isCall := false
@@ -152,6 +152,9 @@ func uniqueCallerRoot(p *core.Program, fn *ssa.Function, depth int) *ssa.Functio
 					asValue = true
 				}
 				n++
+				if caller != nil && caller != core.Outer(g) {
+					several = true
+				}
 				caller = core.Outer(g)
 			}
 			for _, op := range ins.Operands(nil) {
@@ -164,8 +167,25 @@ func uniqueCallerRoot(p *core.Program, fn *ssa.Function, depth int) *ssa.Functio
 			}
 		})
 	}
-	if n != 1 || asValue || caller == nil || caller == fn {
+	// every call site lies in one function (and its closures)
+	if n == 0 || several || asValue || caller == nil || caller == fn {
 		return fn
 	}
 	return uniqueCallerRoot(p, caller, depth+1)
+}
+
+// uniqueCallerChain: fn (without closures), then the function all its call
+// sites lie in, and so on up to uniqueCallerRoot.
+func uniqueCallerChain(p *core.Program, fn *ssa.Function) []*ssa.Function {
+	out := []*ssa.Function{core.Outer(fn)}
+	for i := 0; i < 4; i++ {
+		cur := out[len(out)-1]
+		// one step: the root computed with the remaining depth budget of 0
+		next := uniqueCallerRoot(p, cur, 3)
+		if next == cur {
+			break
+		}
+		out = append(out, next)
+	}
+	return out
 }
